@@ -207,13 +207,13 @@ fn b(x: f64) -> String {
 fn main() {
     let ctx = Ctx::new("C17", "release");
     if let Some(v) = ctx.replay_case() {
-        guard::enter(&v.to_string());
+        let _guard_scope = guard::scoped(&v.to_string());
         ctx.finish_replay(catch(|| replay(&v)).unwrap_or_else(|p| Some(format!("panic: {p}"))));
     }
     guard::set_hang_secs(300);
     let evals = AtomicU64::new(0);
     let run = |case: Value, key_hint: &str, f: &(dyn Fn() -> Option<Bad> + Sync)| {
-        guard::enter(&case.to_string());
+        let _guard_scope = guard::scoped(&case.to_string());
         match catch(f) {
             Ok(None) => ctx.observe(common::fnv_str(&case.to_string())),
             Ok(Some((k, m))) => ctx.violation(&k, case, m, Some(&|| f().map(|e| e.1))),
